@@ -237,15 +237,24 @@ def needs_schema_def(schema):
     )
 
 
-def print_sdl(schema):
+def print_sdl(schema, ext_dirs=False):
+    """ext_dirs: type-level directives are moved into directive-only `extend` pieces"""
     parts = []
     for n, d in (schema.get("directives") or {}).items():
         parts.append(print_directive_def(n, d))
     if needs_schema_def(schema):
         parts.append(print_schema_def(schema))
+    exts = []
     for n, t in schema["types"].items():
-        parts.append(print_type_def(n, t))
-    return "\n\n".join(parts) + "\n"
+        if ext_dirs and t.get("dirs"):
+            bare = dict(t)
+            bare.pop("dirs")
+            parts.append(print_type_def(n, bare))
+            kw = {"SCALAR": "scalar", "ENUM": "enum", "UNION": "union", "INPUT": "input", "OBJECT": "type", "INTERFACE": "interface"}[t["kind"]]
+            exts.append("extend %s %s%s" % (kw, n, print_dirs(t["dirs"])))
+        else:
+            parts.append(print_type_def(n, t))
+    return "\n\n".join(parts + exts) + "\n"
 
 
 # ---------------------------------------------------------------- document printer
